@@ -331,33 +331,39 @@ func contains(outer, inner *net.IPNet) bool {
 
 func ruleTable(c *Ctx) {
 	p := c.P
-	// CIDR string constants in the net package initializer that reach net.ParseCIDR
+	// CIDR string constants of the repo's net package (initializers, variable initialisers and their helpers): every string
+	// constant that has the shape of a CIDR is an entry of the private-network table
 	var lits []string
 	var pos []string
+	hasParse := false
 	for f := range p.All {
-		if eng.PkgPathOf(f) != eng.Mod+"/net" || !strings.HasPrefix(f.Name(), "init") {
-			continue
-		}
-		hasParse := false
-		for _, cl := range eng.Calls(f) {
-			if eng.CalleeName(cl.Common()) == "net.ParseCIDR" {
-				hasParse = true
-				// its error must not be silently hiding a bad literal: we re-parse the literals ourselves below
-			}
-		}
-		if !hasParse {
+		if eng.PkgPathOf(f) != eng.Mod+"/net" {
 			continue
 		}
 		for _, b := range f.Blocks {
 			for _, ins := range b.Instrs {
-				if st, ok := ins.(*ssa.Store); ok {
-					if s, ok := eng.ConstString(st.Val); ok {
-						lits = append(lits, s)
-						pos = append(pos, p.IPos(st))
+				if cl, ok := ins.(ssa.CallInstruction); ok && eng.CalleeName(cl.Common()) == "net.ParseCIDR" {
+					hasParse = true
+				}
+				for _, op := range ins.Operands(nil) {
+					if s, ok := eng.ConstString(*op); ok && strings.Contains(s, "/") && strings.ContainsAny(s, ".:") && !strings.Contains(s, " ") {
+						dup := false
+						for _, l := range lits {
+							if l == s {
+								dup = true
+							}
+						}
+						if !dup {
+							lits = append(lits, s)
+							pos = append(pos, p.IPos(ins))
+						}
 					}
 				}
 			}
 		}
+	}
+	if !hasParse {
+		c.Undecided("TABLE", "anchor:ParseCIDR", "-", "the repo's net package no longer parses CIDR literals")
 	}
 	if !c.Floor("TABLE", "CIDR literals in the private-network table", len(lits), 5) {
 		return
